@@ -23,8 +23,8 @@ using namespace sim;
 using fam::Sk; using fam::Family;
 
 namespace {
-enum { L_NEW = 1, L_FEED, L_COPY, L_MOVE, L_ASSIGN, L_MOVE_ASSIGN, L_SELF_ASSIGN, L_SELF_MOVE_ASSIGN, L_CHAIN, L_MERGE, L_MERGE_MOVE, L_QUERY, L_SERDE, L_RESET, L_DESTROY, L_N };
-const char* lnames[] = { "?", "construct", "update", "copy_construct", "move_construct", "copy_assign", "move_assign", "self_assign", "self_move_assign", "assign_chain", "merge", "merge_move", "query", "serialize_deserialize", "reset", "destroy" };
+enum { L_NEW = 1, L_FEED, L_COPY, L_MOVE, L_ASSIGN, L_MOVE_ASSIGN, L_SELF_ASSIGN, L_SELF_MOVE_ASSIGN, L_CHAIN, L_MERGE, L_MERGE_MOVE, L_QUERY, L_SERDE, L_RESET, L_DESTROY, L_COPY_CONTINUE, L_N };
+const char* lnames[] = { "?", "construct", "update", "copy_construct", "move_construct", "copy_assign", "move_assign", "self_assign", "self_move_assign", "assign_chain", "merge", "merge_move", "query", "serialize_deserialize", "reset", "destroy", "copy_then_continue_both" };
 Family* family_at(i64 idx) { auto& f = fam::families(); return f[static_cast<size_t>(idx) % f.size()]; }
 
 struct Obj { std::unique_ptr<Sk> sk; std::string expect; bool moved_from = false; };
@@ -45,7 +45,7 @@ struct C19World: World {
       else if (roll < 40) s.kind = L_COPY; else if (roll < 47) s.kind = L_MOVE; else if (roll < 54) s.kind = L_ASSIGN; else if (roll < 60) s.kind = L_MOVE_ASSIGN;
       else if (roll < 63) s.kind = L_SELF_ASSIGN; else if (roll < 65) s.kind = L_SELF_MOVE_ASSIGN; else if (roll < 68) { s.kind = L_CHAIN; s.c = static_cast<i64>(rp.below(8)); }
       else if (roll < 76) s.kind = L_MERGE; else if (roll < 81) s.kind = L_MERGE_MOVE; else if (roll < 87) s.kind = L_QUERY; else if (roll < 92) { s.kind = L_SERDE; s.c = static_cast<i64>(rp.below(16)); }
-      else if (roll < 95) s.kind = L_RESET; else s.kind = L_DESTROY;
+      else if (roll < 94) s.kind = L_RESET; else if (roll < 97) { s.kind = L_COPY_CONTINUE; s.c = (static_cast<i64>(rp.below(4)) * 30 + 3) * 64 + static_cast<i64>(rp.below(64)); } else s.kind = L_DESTROY;
       p.steps.push_back(s);
     }
     return p;
@@ -96,6 +96,11 @@ struct C19World: World {
               if (std::string(f->name()) == "theta" && v >= 3) v -= 3;   // wrap() takes no allocator: a wrapped theta sketch is not an allocator-aware object
               if (!b.sk->variant_ok(v)) break; fam::Bytes img = b.sk->ser(v, 0); b.expect = b.sk->obs(false);
               TRACKED(a.sk.reset(b.sk->de(v, img.data(), img.size()))); a.moved_from = false; a.expect = a.sk->obs(false); ctx.nontrivial = true; } break;
+          case L_COPY_CONTINUE: if (b_ok && &a != &b) {   // a copy is the same object from now on as well: source and copy, fed the same batch under the same draws, stay equal
+              TRACKED(a.sk.reset(b.sk->clone())); a.moved_from = false;
+              rnd.rng.seed(mix(p.run_seed, static_cast<u64>(idx) * 16 + 1)); TRACKED(b.sk->feed(s.a * 31 + 5, s.c / 64, s.c % 64)); b.expect = b.sk->obs(false);
+              rnd.rng.seed(mix(p.run_seed, static_cast<u64>(idx) * 16 + 1)); TRACKED(a.sk->feed(s.a * 31 + 5, s.c / 64, s.c % 64)); a.expect = a.sk->obs(false);
+              ctx.require(a.expect == b.expect, fp(p, "copy-diverges-from-source-under-identical-input").c_str(), a.expect.substr(0, 200) + " vs " + b.expect.substr(0, 200)); ctx.probe("copy_then_continue"); ctx.nontrivial = true; } break;
           case L_RESET: if (a_ok) { TRACKED(a.sk->reset()); a.expect = a.sk->obs(false); } break;
           case L_DESTROY: TRACKED(a.sk.reset()); a.moved_from = false; break;
           default: break;
